@@ -37,6 +37,10 @@ Judge(r) ==
        ELSE IF \E k \in Keys : d2.st = "running" /\ LoggedView(r, k) # ViewOf(d2, k)
          THEN [ok |-> FALSE, d |-> d2, why |-> "an entry of the discoverer does not report exactly the matching objects with their ids: key "
                     \o ToString(CHOOSE k \in Keys : LoggedView(r, k) # ViewOf(d2, k))]
+       ELSE IF \E x \in Range(r.lts) : <<x.o, x.c>> \notin d2.lts \/ x.ended # LtEnded(d2, <<x.o, x.c>>)
+         THEN [ok |-> FALSE, d |-> d2, why |-> "a lifetime has ended although its scope exists, or has not ended although its scope is gone: "
+                    \o ToString(CHOOSE x \in Range(r.lts) : <<x.o, x.c>> \notin d2.lts \/ x.ended # LtEnded(d2, <<x.o, x.c>>))]
+       ELSE IF Len(r.lts) # Cardinality(d2.lts) THEN [ok |-> FALSE, d |-> d2, why |-> "DRIFT the bound lifetimes differ"]
        ELSE IF d2.st = "running" /\ r.finished # (d2.scope = "current")
          THEN [ok |-> FALSE, d |-> d2, why |-> "is_finished() is wrong for the scope of the discoverer"]
        ELSE [ok |-> TRUE, d |-> d2, why |-> ""]
